@@ -435,6 +435,12 @@ func runCKKS(c *eng.Ctx, cfg ckksCfg) {
 	} else {
 		e.ecd = ckks.NewEncoder(params)
 	}
+	// every third case works with an encoder obtained through ShallowCopy (how evaluators and concurrent users get
+	// theirs): it must be the same encoder, precision of its working buffers included
+	if e.rnd.N(3) == 0 {
+		e.ecd = e.ecd.ShallowCopy()
+		c.Count("cases_with_shallow_copied_encoder", 1)
+	}
 	e.prec = e.ecd.Prec()
 	e.arb = e.prec > 53
 	e.pathTag = "f64"
